@@ -379,6 +379,67 @@ theorem cscToDense_denseToCsc (dt : String) (n m : Nat) (d : List Rat) (hd : d.l
       sum_pick_colEntries n m d _ _ hi, Nat.div_add_mod' k m]
     simp [List.getD_eq_getElem?_getD, h2]
 
+/-! ### CSR → CSC (`scipy.sparse.csc_matrix(csr)`, the repair of D162) keeps the dense values -/
+
+def pick3 (i : Nat) (e : Nat × Nat × Rat) : Rat := if e.1 = i then e.2.2 else 0
+
+theorem sum_pick3_filter (L : List (Nat × Nat × Rat)) (p : Nat × Nat × Rat → Bool) (i : Nat) :
+    sumRat ((L.filter p).map (pick3 i)) =
+      sumRat ((L.filter fun e => e.1 == i && p e).map (·.2.2)) := by
+  induction L with
+  | nil => simp [sumRat]
+  | cons e L ih =>
+    by_cases hp : p e = true
+    · by_cases hi : e.1 = i
+      · simp [List.filter_cons, hp, hi, sumRat, pick3, ih]
+      · simp [List.filter_cons, hp, hi, sumRat, pick3, ih]
+    · have hp' : p e = false := by simpa using hp
+      simp [List.filter_cons, hp', ih]
+
+theorem cscToDense_csrToCsc (r : Csc) (n m : Nat) (hs : r.shape = [n, m]) :
+    cscToDense (csrToCsc r) = csrToDense r := by
+  let es := csrEntries r
+  let cols := (List.range m).map fun j => es.filter fun e => e.2.1 == j
+  have hcolsLen : cols.length = m := by simp [cols]
+  have hcol : ∀ j, j < m → cols.getD j [] = es.filter fun e => e.2.1 == j := by
+    intro j hj; simp [cols, List.getD_eq_getElem?_getD, hj]
+  have hptr : ∀ j, j ≤ m →
+      ratNat (((cumul 0 (cols.map List.length)).map natRat).getD j 0) = offset cols j := by
+    intro j hj
+    rw [getD_map_natRat, ratNat_natRat, cumul_getD _ _ _ (by simpa [hcolsLen] using hj)]
+    simp [offset, List.map_take]
+  simp only [cscToDense, csrToCsc, csrToDense, hs, List.headD_cons, List.drop_succ_cons, List.drop_zero]
+  congr 1
+  apply List.map_congr_left
+  intro k hk'
+  have hk : k < n * m := by simpa using hk'
+  have hm : 0 < m := by
+    rcases Nat.eq_zero_or_pos m with h0 | h0
+    · simp [h0] at hk
+    · exact h0
+  have hj : k % m < m := Nat.mod_lt _ hm
+  show sumRat ((List.range (ratNat (((cumul 0 (cols.map List.length)).map natRat).getD (k % m + 1) 0) -
+      ratNat (((cumul 0 (cols.map List.length)).map natRat).getD (k % m) 0))).map fun q =>
+        if ((cols.flatten).map fun e => natRat e.1).getD
+            (ratNat (((cumul 0 (cols.map List.length)).map natRat).getD (k % m) 0) + q) 0 = natRat (k / m)
+        then ((cols.flatten).map (·.2.2)).getD
+            (ratNat (((cumul 0 (cols.map List.length)).map natRat).getD (k % m) 0) + q) 0 else 0) = _
+  rw [hptr (k % m + 1) (by omega), hptr (k % m) (by omega), offset_succ cols _ (by omega),
+    Nat.add_sub_cancel_left, hcol _ hj]
+  have hterm : ∀ q ∈ List.range (es.filter fun e => e.2.1 == k % m).length,
+      (if ((cols.flatten).map fun e => natRat e.1).getD (offset cols (k % m) + q) 0 = natRat (k / m)
+        then ((cols.flatten).map (·.2.2)).getD (offset cols (k % m) + q) 0 else 0) =
+      pick3 (k / m) ((es.filter fun e => e.2.1 == k % m).getD q (0, 0, 0)) := by
+    intro q hq
+    have hq' : q < (cols.getD (k % m) []).length := by
+      rw [hcol _ hj]; simpa using hq
+    have hf := flatten_getElem? cols (k % m) q (by omega) hq'
+    rw [hcol _ hj] at hf
+    have hq2 : q < (es.filter fun e => e.2.1 == k % m).length := by simpa using hq
+    simp only [List.getD_eq_getElem?_getD, List.getElem?_map, hf, List.getElem?_eq_getElem hq2,
+      Option.map_some, Option.getD_some, pick3, natRat_inj]
+  rw [List.map_congr_left hterm, map_range_getD _ (pick3 (k / m)) (0, 0, 0), sum_pick3_filter]
+
 /-! ### reversing all axes twice -/
 
 theorem InBounds_append : ∀ (a s b t : List Nat), InBounds a s → InBounds b t →
